@@ -51,7 +51,7 @@ fn pow_big(base: u32, e: u64) -> BigInt {
     num_traits::pow::Pow::pow(BigInt::from(base), e)
 }
 
-fn gen_pair(r: &mut Rng, i: u64) -> (Dec, Dec) {
+pub fn gen_pair(r: &mut Rng, i: u64) -> (Dec, Dec) {
     let lm = if i % 40 == 0 { 2000 } else if i % 5 == 0 { 250 } else { 45 };
     match r.below(10) {
         0 | 1 => {
@@ -388,6 +388,7 @@ pub fn check_case(case: &Case, ctx: &mut Ctx) {
                 if let Some(f) = first { ctx.sample(case, format!("quotient {} ({} digits) is within half an ulp, all 4 ownership forms identical", crate::monitor::abbreviate(&f.tok(), 140), ndigits(&f.n))); }
             }
         }
+        #[cfg(not(feature = "slim"))]
         "prim" => {
             let ad = match Dec::from_tok(case.arg(0)) { Some(a) => a, None => return };
             let sel: u64 = case.arg(1).parse().unwrap_or(0);
@@ -422,6 +423,7 @@ pub fn check_case(case: &Case, ctx: &mut Ctx) {
             }
             ctx.end_case(case.hash(), !ad.is_zero());
         }
+        #[cfg(not(feature = "slim"))]
         "zero" => {
             let ad = match Dec::from_tok(case.arg(0)) { Some(a) => a, None => return };
             let zs: i64 = case.arg(1).parse().unwrap_or(0);
